@@ -20,7 +20,7 @@ ASSUMPTIONS = ['binary-shape comparisons skip pixels whose exactly computed edge
 PLAN = {'quick': {'gen': 8}, 'thorough': {'gen': 16, 'tests': 1, 'docs': 1}}
 REQUIRED_BUCKETS = ['pad:2d', 'pad:cube', 'pad:nonsquare-cube', 'pad:grow', 'pad:shrink', 'pad:mixed',
                     'pad:parity-change', 'subarray', 'window', 'boundary', 'slice_offset', 'centroid', 'rebin',
-                    'rebin:cube', 'mesh', 'shape:circle', 'shape:hexagon', 'shape:rectangle', 'shape:spider', 'shape:sequence', 'shape:binary',
+                    'rebin:cube', 'rebin:small-int', 'mesh', 'shape:circle', 'shape:hexagon', 'shape:rectangle', 'shape:spider', 'shape:sequence', 'shape:binary',
                     'shape:antialias', 'hexseg', 'hexseg:gap0', 'hexseg:drop']
 REQUIRED_ANCHORS = ['probe:pad', 'anchor:mesh', 'anchor:hex_to_rc', 'anchor:slice_offset', 'anchor:boundary_slice']
 REQUIRED_ORACLES = ['pad=index', 'pad-crop=id', 'subarray=index', 'window=index', 'boundary=set',
@@ -351,19 +351,29 @@ def workload(ctx, lentil):
         s = (f * int(rng.integers(1, 6)), f * int(rng.integers(1, 6)))
         cube = rng.random() < 0.4
         a = rng.normal(size=((int(rng.integers(1, 4)),) + s) if cube else s)
-        if rng.random() < 0.3:
+        kd = rng.random()
+        if kd < 0.3:
             a = np.round(a * 100).astype(np.int64 if rng.random() < 0.5 else np.int32)      # counts
-        desc = {'op': 'rebin', 'in': list(a.shape), 'factor': f}
+        elif kd < 0.45:
+            # frames as a detector delivers them: small unsigned / signed integer types near full scale, boolean masks
+            dt = [np.uint8, np.uint16, np.int16, bool, np.int8][int(rng.integers(0, 5))]
+            if dt is bool:
+                a = (a > -1).astype(bool)
+            else:
+                info = np.iinfo(dt)
+                a = rng.integers(int(info.max * 0.6), info.max, size=a.shape, endpoint=True).astype(dt)
+            ctx.bucket('rebin:small-int')
+        desc = {'op': 'rebin', 'in': list(a.shape), 'factor': f, 'dtype': str(a.dtype)}
         ctx.case(desc, ['rebin'] + (['rebin:cube'] if cube else []), nontrivial=a.size > 1)
         got = U.rebin(a, f)
         ref = np.zeros(a.shape[:-2] + (s[0] // f, s[1] // f))
         for r in range(s[0] // f):
             for c in range(s[1] // f):
-                ref[..., r, c] = a[..., r * f:(r + 1) * f, c * f:(c + 1) * f].sum(axis=(-1, -2))
+                ref[..., r, c] = a[..., r * f:(r + 1) * f, c * f:(c + 1) * f].astype(float).sum(axis=(-1, -2))
         ctx.close('rebin=blocks', got, ref, 1e-13, 'rebin|value', 'rebin is not the block sum', desc,
-                  scale=max(1.0, float(np.abs(a).max()) * f * f))
-        ctx.close('rebin=blocks', np.array(got.sum()), np.array(a.sum()), 1e-12, 'rebin|total',
-                  'rebin does not preserve the sum', desc, scale=float(np.abs(a).sum()) + 1)
+                  scale=max(1.0, float(np.abs(a.astype(float)).max()) * f * f))
+        ctx.close('rebin=blocks', np.array(float(np.asarray(got, float).sum())), np.array(float(a.astype(float).sum())), 1e-12, 'rebin|total',
+                  'rebin does not preserve the sum', desc, scale=float(np.abs(a.astype(float)).sum()) + 1)
         # mesh
         s = _rs(rng, 1)
         sh = (float(rng.uniform(-3, 3)), float(rng.uniform(-3, 3))) if rng.random() < 0.5 else (0, 0)
